@@ -2,6 +2,7 @@
 from __future__ import annotations
 
 import asyncio
+import contextvars
 from typing import Any, Dict, List
 
 from hypothesis import strategies as st
@@ -14,6 +15,8 @@ from vt.core.vloop import Deadlock, VirtualTimeLoop
 from vt.harness import depgraph as dg
 from vt.harness import worker as wh
 
+EXEC: contextvars.ContextVar = contextvars.ContextVar("vt_execution", default=None)
+
 PID = "C06"
 RULE = (
     "Hypothesis-generated programs: a task with a dependency DAG of 1-5 nodes (depth <= 3) mixing sync / async / "
@@ -21,8 +24,9 @@ RULE = (
     "take the Context and echo Context.message.{task_id, args[0], labels['who']}, async nodes sleep for generated "
     "virtual durations (or only `await` once); 2-4 messages with distinct ids / args / labels delivered to the real "
     "Receiver.callback at generated virtual instants so that their executions overlap, the task body sleeps too; a "
-    "user-supplied custom dependency context on the broker in half of the cases. Oracle: every echo made while "
-    "processing message i (attributed through the asyncio task that runs its callback) shows message i's id, argument "
+    "user-supplied custom dependency context on the broker in half of the cases; in half of the cases one node is "
+    "replaced through broker.dependency_overrides by another generated dependency. Oracle: every echo made while "
+    "processing message i (attributed through a context variable set when its callback starts, inherited by every task it spawns) shows message i's id, argument "
     "and label; the result stored under id i is the value execution i returned. Non-trivial: >=2 executions overlap in "
     "virtual time and some Context-reading node is un-cached or below an un-cached node; distinct = canonical JSON."
 )
@@ -45,7 +49,30 @@ def cases() -> Any:
         "task_deps": st.lists(st.tuples(st.integers(0, n - 1), st.booleans()).map(list), min_size=1, max_size=3, unique_by=lambda x: x[0]),
         "msgs": st.lists(st.tuples(st.sampled_from([0, 0, 0.05, 0.1, 0.15, 0.3]), st.sampled_from([0, 0.05, 0.1, 0.2])).map(list), min_size=2, max_size=4),
         "custom_ctx": st.booleans(),
-    }))
+        # broker.dependency_overrides: a node replaced at run time by another generated dependency (own sub-dependencies
+        # among the existing nodes); the worker then rebuilds the dependency graph per execution
+        "overrides": st.one_of(st.just([]), st.lists(st.fixed_dictionaries({"target": st.integers(0, n - 1), "node": node(n)}), min_size=1, max_size=1)),
+        "cached_base": st.booleans(),
+    }).map(_sanitize))
+
+
+def _sanitize(c: Dict[str, Any]) -> Dict[str, Any]:
+    """A replacement may only depend on nodes below its target (anything else can close a cycle through the override,
+    on which the dependency library's graph construction does not terminate - an invalid program, not a property of taskiq)."""
+    for rep in c.get("overrides") or []:
+        rep["node"]["deps"] = [d for d in rep["node"]["deps"] if d[0] < rep["target"]]
+    if c.get("cached_base") and c.get("overrides"):
+        # family: the declared graph is fully cached, only the replacement brings un-cached sub-dependencies
+        for nd in c["nodes"]:
+            nd["deps"] = [[j, True] for j, _ in nd["deps"]]
+        c["task_deps"] = [[j, True] for j, _ in c["task_deps"]]
+        for rep in c["overrides"]:
+            t = rep["target"]
+            rep["node"]["deps"] = [[j, False] for j, _ in rep["node"]["deps"]] or ([[t - 1, False]] if t > 0 else [])
+            rep["node"]["ctx"] = True
+            for j, _ in rep["node"]["deps"]:
+                c["nodes"][j]["ctx"] = True
+    return c
 
 
 def parts(tier: str) -> List[Part]:
@@ -61,6 +88,7 @@ class Marker:
 def run_case(c: Dict[str, Any]) -> Outcome:
     out = Outcome()
     out.clauses_checked = ["C06.a", "C06.b"]
+    c = _sanitize(c)
     nodes, tdeps, msgs = c["nodes"], c["task_deps"], c["msgs"]
     loop = VirtualTimeLoop()
     loop.max_iterations = 100_000
@@ -70,8 +98,7 @@ def run_case(c: Dict[str, Any]) -> Outcome:
     spans: Dict[int, List[float]] = {}
 
     def LOG(kind: str, node_: Any, *payload: Any) -> None:
-        t = asyncio.current_task()
-        k = cur.get(t, None)
+        k = EXEC.get()
         if kind == "echo":
             echoes.setdefault(k, []).append((node_, round(loop.time(), 6)) + payload)
 
@@ -84,14 +111,16 @@ def run_case(c: Dict[str, Any]) -> Outcome:
         b.result_backend = rb
         if c.get("custom_ctx"):
             b.add_dependency_context({Marker: Marker()})
-        mod, task, src = dg.build(nodes, tdeps, {"kind": "ret"}, LOG)
+        mod, task, src = dg.build(nodes, tdeps, {"kind": "ret", "replacements": c.get("overrides") or []}, LOG)
+        for ri, rep in enumerate(c.get("overrides") or []):
+            b.dependency_overrides[getattr(mod, f"n{rep['target']}")] = getattr(mod, f"r{ri}")
         b.register_task(task, task_name="t")
         r = Receiver(b, executor=wh.Inline(), max_async_tasks=10, run_startup=False)
 
         async def one(k: int, start: float, slp: float) -> None:
             if start:
                 await asyncio.sleep(start)
-            cur[asyncio.current_task()] = k
+            EXEC.set(k)
             m = b.formatter.dumps(AsyncKicker("t", b, {"who": f"w{k}"}).with_task_id(f"id{k}")._prepare_message(k, slp)).message
             spans[k] = [loop.time(), None]
             await r.callback(m)
@@ -144,7 +173,7 @@ def run_case(c: Dict[str, Any]) -> Outcome:
             if not uc and (nodes[j]["ctx"] or any(nodes[d]["ctx"] for d in dg.descendants(nodes, j))):
                 risky = True
     out.nontrivial = bool(overlap and risky)
-    out.classes = [c_ for c_, f in (("overlap", overlap), ("uncached_ctx_reader", risky), ("custom_ctx", c.get("custom_ctx")),
+    out.classes = [c_ for c_, f in (("overlap", overlap), ("uncached_ctx_reader", risky), ("custom_ctx", c.get("custom_ctx")), ("dependency_overrides", bool(c.get("overrides"))),
                                     ("generator_style", any(nodes[i]["style"] in dg.YIELDING for i in reach))) if f]
     out.trace = {"echoes": {str(k): [list(e[:3]) for e in v[:6]] for k, v in echoes.items()}, "spans": {str(k): v for k, v in spans.items()}}
     return out
